@@ -21,6 +21,8 @@
 #include <nano/wlearner/dtree.h>
 #include <nano/wlearner/hinge.h>
 #include <nano/wlearner/stump.h>
+#include <nano/wlearner/table.h>
+#include <algorithm>
 #include <cmath>
 #include <cstring>
 #include <cstdio>
@@ -153,8 +155,139 @@ static int ties_scenario(const char* name, scalar_t (*threshold_of)(const twlear
     return (!between || !same_rss) ? 1 : 0;
 }
 
+// third scenario (targets acc_sort / tbl_score, "the gain of a label set is the SUM over the outputs of its squared residual sums"):
+//   C10_replay dstep
+// one single-label feature with 3 classes, a target with TWO outputs, residuals whose per-class sums have mixed signs across the
+// outputs; the real discrete-step table is fitted with the RSS criterion and the clause is evaluated natively: the returned
+// score must be the RSS of the learner's own predictions.     exit 1: violated, exit 0 otherwise
+class classes_datasource_t final : public datasource_t
+{
+public:
+    classes_datasource_t()
+        : datasource_t("replay-classes")
+    {
+    }
+
+    rdatasource_t clone() const override { return std::make_unique<classes_datasource_t>(*this); }
+
+    static constexpr tensor_size_t N = 9;
+
+private:
+    void do_load() override
+    {
+        resize(N, features_t{feature_t{"c"}.sclass(strings_t{"c0", "c1", "c2"}), feature_t{"y"}.scalar(feature_type::float64, make_dims(2, 1, 1))}, 1U);
+        auto zero = tensor3d_t{make_dims(2, 1, 1)};
+        zero.zero();
+        for (tensor_size_t sample = 0; sample < N; ++sample)
+        {
+            set(sample, 0, sample % 3);
+            set(sample, 1, zero);
+        }
+    }
+};
+
+static int dstep_scenario()
+{
+    auto datasource = classes_datasource_t{};
+    datasource.load();
+    auto dataset = dataset_t{datasource, 1U};
+    dataset.add<sclass_identity_generator_t>();
+
+    const auto N = classes_datasource_t::N;
+    // residuals (sample, output): class 0: (+3, -3) on every sample (sums cancel across the outputs), class 1: (+1, +1), class 2: ~0
+    auto samples   = indices_t{N};
+    auto gradients = tensor4d_t{make_dims(N, 2, 1, 1)};
+    for (tensor_size_t i = 0; i < N; ++i)
+    {
+        samples(i)            = i;
+        const auto cls        = i % 3;
+        const auto r0         = cls == 0 ? 3.0 : (cls == 1 ? 1.0 : 0.1 * (static_cast<scalar_t>(i) - 4.0));
+        const auto r1         = cls == 0 ? -3.0 : (cls == 1 ? 1.0 : 0.05);
+        gradients(i, 0, 0, 0) = -r0;
+        gradients(i, 1, 0, 0) = -r1;
+    }
+
+    auto wlearner                             = dstep_table_wlearner_t{};
+    wlearner.parameter("wlearner::criterion") = wlearner_criterion::rss;
+    const auto fit_rss                        = wlearner.fit(dataset, samples, gradients);
+    if (fit_rss == wlearner_t::no_fit_score())
+    {
+        std::printf("dstep: no fit\n");
+        return 0;
+    }
+    const auto outputs     = wlearner.predict(dataset, samples);
+    auto       predict_rss = 0.0;
+    for (tensor_size_t i = 0; i < N; ++i)
+    {
+        for (tensor_size_t o = 0; o < 2; ++o)
+        {
+            const auto delta = -gradients(i, o, 0, 0) - outputs(i, o, 0, 0);
+            predict_rss += delta * delta;
+        }
+    }
+    const auto same_rss = std::fabs(predict_rss - fit_rss) <= 1e-9 * (1.0 + std::fabs(fit_rss));
+    std::printf("dstep table on 3 classes, 2 outputs (class 0 residuals (+3,-3)): selected class hash=%lu, returned RSS=%.12g, RSS of its predictions=%.12g (%s)\n",
+                static_cast<unsigned long>(wlearner.hashes()(0)), fit_rss, predict_rss, same_rss ? "reproduced" : "NOT reproduced");
+    return same_rss ? 0 : 1;
+}
+
+// fourth scenario (targets *_do_split, "split assigns exactly the given samples, by sample index"):   C10_replay split
+// the real hinge is fitted on x = {1,1,1,1,2,2,2,2,3,3} and split() is called with the unordered list (9,4,7,0,8,4,5): every
+// dataset sample must get group 0 iff it is in the list and its value is on the active side, no group otherwise.
+static int split_scenario()
+{
+    auto datasource = ties_datasource_t{};
+    datasource.load();
+    auto dataset = dataset_t{datasource, 1U};
+    dataset.add<scalar_identity_generator_t>();
+
+    const auto     N           = ties_datasource_t::N;
+    const scalar_t residuals[] = {-2.1, -1.9, -2.2, -1.8, -1.0, -1.1, +0.1, -0.1, 0.2, -0.2};
+    auto           all         = indices_t{N};
+    auto           gradients   = tensor4d_t{make_dims(N, 1, 1, 1)};
+    for (tensor_size_t i = 0; i < N; ++i)
+    {
+        all(i)       = i;
+        gradients(i) = -residuals[i];
+    }
+    auto wlearner                             = hinge_wlearner_t{};
+    wlearner.parameter("wlearner::criterion") = wlearner_criterion::rss;
+    if (wlearner.fit(dataset, all, gradients) == wlearner_t::no_fit_score())
+    {
+        std::printf("hinge: no fit\n");
+        return 0;
+    }
+    const auto samples = make_indices(9, 4, 7, 0, 8, 4, 5);
+    const auto cluster = wlearner.split(dataset, samples);
+    auto       bad     = 0;
+    for (tensor_size_t s = 0; s < N; ++s)
+    {
+        const auto x      = ties_datasource_t::value(s);
+        const auto listed = std::find(samples.begin(), samples.end(), s) != samples.end();
+        const auto active = wlearner.hinge() == hinge_type::left ? (x < wlearner.threshold()) : (x >= wlearner.threshold());
+        const auto expect = (listed && active) ? 0 : -1;
+        if (cluster.group(s) != expect)
+        {
+            std::printf("  sample %ld (x=%g, %s the list, %s): split reports group %ld, expected %d\n", static_cast<long>(s), x, listed ? "in" : "NOT in",
+                        active ? "active" : "inactive", static_cast<long>(cluster.group(s)), expect);
+            ++bad;
+        }
+    }
+    std::printf("hinge(threshold=%g, %s) split on the list (9,4,7,0,8,4,5): %d of %ld dataset samples with a wrong group\n", wlearner.threshold(),
+                wlearner.hinge() == hinge_type::left ? "left" : "right", bad, static_cast<long>(N));
+    return bad > 0 ? 1 : 0;
+}
+
 int main(int argc, char* argv[])
 {
+    if (argc > 1 && std::strcmp(argv[1], "split") == 0)
+    {
+        return split_scenario();
+    }
+    if (argc > 1 && std::strcmp(argv[1], "dstep") == 0)
+    {
+        return dstep_scenario();
+    }
     if (argc > 2 && std::strcmp(argv[1], "ties") == 0)
     {
         ties_datasource_t::adjacent = argc > 3 && std::strcmp(argv[3], "adjacent") == 0;
